@@ -28,6 +28,9 @@ CLAIMS["C19"] = dict(cat="other", tech="unsafe/who-may-call inventory, expressio
 CLAIMS["C04"] = dict(cat="other", tech="MIR panic-site discharge with interprocedural preconditions; constant-budget obligations; who-may-call + type facts; dominance/edge-cut rules; bit-provenance for canonical headers",
    text="No valid API call sequence panics (every reachable panic site discharged by dominating guards incl. the chunk-size assert against send()'s TooLongData test, or reviewed API precondition); datagrams are <= 1400 bytes by construction (only PacketBuilder::send calls Callback::send, with the output of Packet::write into a [u8; 1400] field); budgets over constants extracted from the code (header + chunk area + token <= MAX_PACKETSIZE, ArrayVec capacities, chunk count below 256 through the admission predicate); count/content pairing of num_chunks and data; the writer's headers are canonical for the reader (bit domain).",
    note=TB + "Chunk bytes being bit-identical after a reader pass is value-level and not decided. Documented API preconditions (assert_online, reset/connect states, NUL-free reason) are the caller's.")
+CLAIMS["C02"] = dict(cat="other", tech="loop inventory over the call graph (SCCs with recognised progress arguments), constant-budget / structural progress obligation for the resend loop, must-pass-through rules on CFGs for timer arming",
+   text="Every call into Connection/Net returns: each CFG cycle reachable from the public API is iterator- or reader-driven or reviewed, and the one non-advancing cycle of resend is accepted only under a checked progress argument (budget inequality over extracted constants, or empty-packet admission + flush clears). Timer mechanisms: ResendChunk::new and resend arm the retransmit timer; tick_action re-arms before every send; flush/connect/send_connless arm the send timer; needs_tick is min(send, oldest resend) and inactive outright only when idle; Net::needs_tick is the min over peers; resend requests are set and honoured on the right edges.",
+   note=TB + "Liveness under a fair suffix (the connecting side becomes ready, every chunk is eventually delivered) is a history-level property and is not decided. The `optional` crate's ordering of the none value is assumed.")
 NA = {}
 m = {"version": 1,
      "setup_cmd": "cd /verif/engine/mirfacts && CARGO_NET_OFFLINE=true cargo build --release --offline",
